@@ -1027,6 +1027,10 @@ class GenFunctions(object):
             node -
             ordered_functions -
         """
+        if self.instantiate_scope is None:
+            raise RuntimeError(
+                "Function template '{}' has no cxx_template instantiations"
+                .format(node.ast.name))
         new = node.clone()
         ordered_functions.append(new)
         self.append_function_index(new)
